@@ -30,6 +30,9 @@ func runC08(p *eng.Prog, r *eng.Report, tier string) {
 	serveCtxRootedInBackground(c, "C08.16")
 	idTypFromOwnAttributes(c, "C08.18")
 	c06WaiterWithdrawnOnEveryExit(c, "C08.19")
+	// C08.20 the rest of a response offered to a waiter is read before the next
+	// element: its children never count as top-level elements (= C06.2)
+	handoffDrained(c, "C08.20")
 	c04AdaptersReportEveryFault(c, "C08.17")
 	depthCountersDoNotWrap(c, "C08.15")
 	// C08.14 "once per top-level element": a response whose waiter has gone
